@@ -9,6 +9,7 @@ import QuiverModel.Lemmas.Builtins.Shift
 import QuiverModel.Lemmas.Builtins.VectorRefine
 import QuiverModel.Lemmas.Builtins.IntegerBits
 import QuiverModel.Lemmas.Builtins.DispatchTotal
+import QuiverModel.Lemmas.Builtins.DispatchShape
 /-
 C12 — Builtins are total and agree with simple reference models. Property theorems only
 (helper lemmas live in `Lemmas/Bytes/*`, `Lemmas/Builtins/*`).
@@ -481,6 +482,23 @@ theorem stored_result_opt {o : Outcome (Option Rope)} {s : Outcome (Option (List
 
 Two stored ropes of equal content give the same outcome (same integer / nil / error class, and
 result ropes of equal content) — for every builtin taking a binary. -/
+
+/-- **Results do not depend on how an argument binary was built** — one statement for all builtins:
+    if two arguments have the same structure and integers and their binaries have equal content
+    (`BArg.same`: any two rope shapes — literal, concatenation, slice, repeat, zero-fill, nested),
+    then for every registry name the two outcomes are observably the same (`outSame`: same integer,
+    nil, or error class; result binaries of equal content; neither is a panic). -/
+theorem builtins_shape_independent (name : String) (a₁ a₂ : BArg) (h₁ : a₁.Stored) (h₂ : a₂.Stored)
+    (hs : a₁.same a₂) (o₁ : Outcome BArg) (h : callBuiltin name a₁ = some o₁) :
+    ∃ o₂, callBuiltin name a₂ = some o₂ ∧ outSame o₁ o₂ :=
+  callBuiltin_same h₁ h₂ hs name o₁ h
+
+/-- two differently built arguments of equal content: `[tiled(0a 61) × 2 ‖ slice, 7]` vs the flat literal -/
+example : (BArg.tup [.bin (.concat (.tiled (.owned [0x0a, 0x61]) 2) (.slice (.owned [9, 0x62, 9]) 1 1) 5), .int 7]).same
+    (BArg.tup [.bin (.owned [0x0a, 0x61, 0x0a, 0x61, 0x62]), .int 7]) := by
+  refine ⟨?_, rfl, trivial⟩
+  show Rope.bytes _ = Rope.bytes _
+  decide
 
 theorem shape_independent_bin {f : Rope → Outcome Rope} {s : List UInt8 → Outcome (List UInt8)}
     (h : ∀ r, r.Stored → RefinesBin (f r) (s r.bytes))
